@@ -255,6 +255,12 @@ func solveBatch(vc *VC, js []struct {
 	}
 }
 
+// SolveOneExported solves a single obligation (used for retries with a larger budget).
+func SolveOneExported(vc *VC, o *Obligation, idx int, opts SolveOpts) *Result {
+	_ = os.MkdirAll(opts.Dir, 0o755)
+	return solveOne(vc, o, idx, opts)
+}
+
 func solveOne(vc *VC, o *Obligation, idx int, opts SolveOpts) *Result {
 	r := &Result{VC: vc, Obl: o, PerSolver: map[string]string{}}
 	// trivial goals need no solver
